@@ -257,9 +257,11 @@ CLAIMED = {
                 "the plane's inclination is within (3/4) k2/pL^2 of the element set's (hence within 0.05 deg for pL >= 0.69 earth radii) and the node within (3/2) "
                 "k2/pL^2 of the secular node. The report's pre-correction rates and radius satisfy vis-viva exactly (v^2/2 - mu/r = -mu/2a) and the rate corrections "
                 'are bounded by k2 n/pL and 3 k2 n/pL; on every answered propagation the geocentric distance satisfies a(1-eL) <= r <= a(1+eL) and |returned radius - '
-                'r| <= (3 k2/pL^2 r + k2/(2 pL)) XKMPER (below 23 km for pL >= 1, r <= 2 earth radii: the osculating half of the perigee/apogee clause). The other '
-                "clauses (velocity = d position/dt within 0.15 %, the step from the osculating band to the TLE's perigee/apogee, returned energy within 1 %, orbit "
-                'summary) are facts about the SGP4 theory and are checked by sampling',
+                'r| <= (3 k2/pL^2 r + k2/(2 pL)) XKMPER (below 23 km for pL >= 1, r <= 2 earth radii: the osculating half of the perigee/apogee clause). The specific '
+                'orbital energy of the returned state is within 1 % of -mu/2a(t) on every answered propagation with eL^2 <= 4/25 and osculating perigee >= 1.03 earth '
+                'radii (exact vis-viva of the pre-correction state + a perturbation budget for the three corrections, its numeric core closed by interval arithmetic; '
+                "mu = ke^2 XKMPER^3/3600 = 398600.8). The other clauses (velocity = d position/dt within 0.15 %, the steps from the osculating a(t), eL(t) to the TLE's"
+                ' perigee/apogee and semi-major axis, orbit summary) are facts about the SGP4 theory and are checked by sampling',
         "design_ref": 'DESIGN.md 5/C20',
         "note": 'trusted: Coq kernel, stdlib real axioms, translator (self-checked each run). Sampled clauses are not proved; say so in evidence.assumptions',
         "technique": 'Coq proof (ring with trigonometric identities) over source-regenerated model; finite-difference and node-scan oracle on the implementation',
